@@ -280,6 +280,13 @@ func extractTarGz(tarGzFile, dest string) error {
 			if err := os.MkdirAll(filepath.Dir(target), 0755); err != nil {
 				return err
 			}
+			// A name archived before is replaced, not written through: it may
+			// share its inode with another name of the archive (hard link).
+			if fi, err := os.Lstat(target); err == nil && !fi.IsDir() {
+				if err := os.Remove(target); err != nil {
+					return err
+				}
+			}
 			f, err := os.OpenFile(target, os.O_CREATE|os.O_RDWR|os.O_TRUNC, os.FileMode(header.Mode))
 			if err != nil {
 				return err
